@@ -87,42 +87,99 @@ def norm_key(ty, tok):
 
 # --------------------------------------------------------------------------- key universes
 
-def keys_for_buckets(ty, order, buckets, per_bucket, rng, highbytes=True):
-    """dict bucket -> list of `per_bucket` distinct key tokens hashing to that bucket."""
+class ImplHash:
+    """bucket of a key AS THE IMPLEMENTATION COMPUTES IT (its `hash` operation); the monitor and the key
+    generators use this, so that a different-but-valid hash function in the C code is not an alarm."""
+
+    def __init__(self, binp):
+        self.binp = binp
+        self.cache = {}
+
+    def ensure(self, triples):
+        miss = {}
+        for ty, order, tok in triples:
+            if (ty, order, tok) not in self.cache:
+                miss.setdefault((ty, order), set()).add(tok)
+        if not miss:
+            return
+        lines, order_of = [], []
+        for (ty, order), toks in miss.items():
+            lines.append("new %s %d" % (ty, order))
+            order_of.append(None)
+            for t in sorted(toks):
+                lines.append("hash " + t)
+                order_of.append((ty, order, t))
+        rc, out, err = run_impl(self.binp, "\n".join(lines) + "\n")
+        for key, ln in zip(order_of, out):
+            if key is not None and ln.startswith("hash "):
+                self.cache[key] = int(ln.split()[1])
+
+    def bucket(self, ty, order, tok):
+        tok = norm_key(ty, tok)
+        if (ty, order, tok) not in self.cache:
+            self.ensure([(ty, order, tok)])
+        return self.cache.get((ty, order, tok), -1)
+
+
+def candidate_key(ty, rng, n, start, highbytes):
+    if ty == "string":
+        ln = rng.randint(1, 6)
+        if highbytes and rng.random() < 0.3:
+            bs = bytes(rng.randint(1, 255) for _ in range(ln))
+        else:
+            bs = bytes(rng.choice(b"abcdefghijklmnopqrstuvwxyz/#0123456789") for _ in range(ln))
+        return bs.hex()
+    bits, top = (32, M32) if ty == "uint32" else (64, M64)
+    v = ((start + n) & top) if rng.random() < 0.7 else rng.getrandbits(bits)
+    return None if v == top else str(v)
+
+
+def keys_for_buckets(ty, order, buckets, per_bucket, rng, highbytes=True, hasher=None):
+    """dict bucket -> list of up to `per_bucket` distinct key tokens hashing to that bucket.
+    Candidates are proposed with this file's copy of the hash functions and confirmed with the
+    implementation's; if the two disagree (the C hash function was changed) the search falls back to
+    bulk-hashing candidates with the implementation (bounded), so the result is always correct w.r.t. the code."""
     want = {b: [] for b in buckets}
     need = len(want) * per_bucket
-    seen = set()
+    seen, cands = set(), []
     n = 0
     start = rng.randrange(1, 1 << 20)
-    while need > 0:
+    while need > 0 and n < 4000000:
         n += 1
-        if n > 4000000:
-            raise RuntimeError("key search did not terminate")
-        if ty == "string":
-            ln = rng.randint(1, 6)
-            if highbytes and rng.random() < 0.3:
-                bs = bytes(rng.randint(1, 255) for _ in range(ln))
-            else:
-                bs = bytes(rng.choice(b"abcdefghijklmnopqrstuvwxyz/#0123456789") for _ in range(ln))
-            tok = bs.hex()
-        elif ty == "uint32":
-            v = (start + n) & M32 if rng.random() < 0.7 else rng.getrandbits(32)
-            if v == M32:
-                continue
-            tok = str(v)
-        else:
-            v = (start + n) if rng.random() < 0.7 else rng.getrandbits(64)
-            if v == M64:
-                continue
-            tok = str(v)
-        if tok in seen:
+        tok = candidate_key(ty, rng, n, start, highbytes)
+        if tok is None or tok in seen:
             continue
         b = pyhash(ty, order, tok)
         if b in want and len(want[b]) < per_bucket:
             want[b].append(tok)
             seen.add(tok)
             need -= 1
-    return want
+    if hasher is None:
+        return want
+    hasher.ensure([(ty, order, t) for v in want.values() for t in v])
+    real = {b: [] for b in buckets}
+    for v in want.values():
+        for t in v:
+            rb = hasher.bucket(ty, order, t)
+            if rb in real and len(real[rb]) < per_bucket:
+                real[rb].append(t)
+    rounds = 0
+    while any(len(v) < per_bucket for v in real.values()) and rounds < 12:
+        rounds += 1
+        batch = []
+        while len(batch) < 20000:
+            n += 1
+            tok = candidate_key(ty, rng, n, start, highbytes)
+            if tok is not None and tok not in seen:
+                seen.add(tok)
+                batch.append(tok)
+        hasher.ensure([(ty, order, t) for t in batch])
+        for t in batch:
+            rb = hasher.cache.pop((ty, order, t), -1)
+            if rb in real and len(real[rb]) < per_bucket:
+                real[rb].append(t)
+                hasher.cache[(ty, order, t)] = rb
+    return real
 
 
 # --------------------------------------------------------------------------- running both sides
@@ -172,7 +229,10 @@ class Monitor:
     """The property, evaluated on the implementation's observations of ONE table (from its `new` line on)
     against a Python dict.  `step` raises Failure(clause, detail) when the property is violated."""
 
-    def __init__(self, new_op, new_obs):
+    def __init__(self, new_op, new_obs, hasher, outputs_only=False):
+        self.hasher = hasher
+        self.outputs_only = outputs_only
+        self.ghosts = []
         w = new_op.split()
         self.ty, self.order = w[1], int(w[2])
         ow, st = parse_line(new_obs)
@@ -214,9 +274,9 @@ class Monitor:
             hop, key, val = st.get(p, (0, None, 0))
             if key is None:
                 raise Failure("image", "bit %d of bucket %d points to empty slot %d" % (d, h, p))
-            if pyhash(self.ty, self.order, key) != h:
+            if self.hasher.bucket(self.ty, self.order, key) != h:
                 raise Failure("image", "slot %d holds key %s of bucket %d but is referenced from bucket %d" % (
-                    p, key, pyhash(self.ty, self.order, key), h))
+                    p, key, self.hasher.bucket(self.ty, self.order, key), h))
             if key in out:
                 raise Failure("unique", "key %s is live twice" % key)
             out[key] = val
@@ -249,31 +309,34 @@ class Monitor:
         if not ow or ow[0] != w[0]:
             raise Failure("protocol", "observation %r for operation %r" % (obs[:80], op))
         fields = dict(x.split("=") for x in ow[1:] if "=" in x)
-        pre, pre_live = self.state, self.live_map(self.state)
-        live = self.live_map(st)
+        pre = self.state
+        oo = self.outputs_only
+        pre_live = {} if oo else self.live_map(self.state)
+        live = {} if oo else self.live_map(st)
         kind = w[0]
         if kind == "put":
             key, val = norm_key(self.ty, w[1]), int(w[2]) & M64
             rc, prev = int(fields["rc"]), int(fields["prev"])
             if is_invalid_key(self.ty, key):
-                if rc != -2 or st != pre:
+                if rc != -2 or (st != pre and not oo):
                     raise Failure("keyinval", "INVALIDENTRY key: rc=%d, table %s" % (rc, "changed" if st != pre else "same"))
                 self.stats["put_keyinval"] += 1
             elif rc == 0:
                 if prev != self.ref.get(key, 0):
                     raise Failure("put_prev", "previous value %d, reference %r" % (prev, self.ref.get(key)))
                 self.stats["put_overwrite" if key in self.ref else "put_new"] += 1
-                if key not in self.ref and sum(1 for p in live if pre.get(p, (0, None, 0))[1] != st[p][1]) > 1:
+                if key not in self.ref and sum(1 for p in live if pre.get(p, (0, None, 0))[1] != st.get(p, (0, None, 0))[1]) > 1:
                     self.stats["displaced"] += 1
                 self.ref[key] = val
             elif rc == -1:
                 if key in self.ref:
                     raise Failure("refused_present", "put of present key %s refused" % key)
-                why = self.refusal_justified(pre_live, st, live, pyhash(self.ty, self.order, key))
+                hb = self.hasher.bucket(self.ty, self.order, key)
+                why = "window" if oo else self.refusal_justified(pre_live, st, live, hb)
                 if why is None:
                     raise Failure("refused_unjustified",
                                   "put of %s (bucket %d) refused although a slot within reach holds no entry and is not stuck" % (
-                                      key, pyhash(self.ty, self.order, key)))
+                                      key, hb))
                 self.stats["put_full_" + why] += 1
             else:
                 raise Failure("put_rc", "unexpected return code %d" % rc)
@@ -288,7 +351,7 @@ class Monitor:
                 if rc != -1:
                     raise Failure("get_absent", "get of absent key %s -> rc=%d val=%d" % (key, rc, val))
                 self.stats["get_miss"] += 1
-            if st != pre:
+            if st != pre and not oo:
                 raise Failure("get_pure", "get changed the table")
         elif kind == "remove":
             key = norm_key(self.ty, w[1])
@@ -309,15 +372,20 @@ class Monitor:
             self.ref = {}
             self.stats["sweep"] += 1
         elif kind == "hash":
+            if not 0 <= int(ow[1]) < self.N:
+                raise Failure("hash", "hash %s = %s is outside the table" % (w[1], ow[1]))
             if int(ow[1]) != pyhash(self.ty, self.order, norm_key(self.ty, w[1])):
-                raise Failure("hash", "hash %s = %s, reference %d" % (w[1], ow[1], pyhash(self.ty, self.order, w[1])))
-            if st != pre:
+                self.stats["hash_differs_from_python_copy"] = self.stats.get("hash_differs_from_python_copy", 0) + 1
+            if st != pre and not oo:
                 raise Failure("get_pure", "hash changed the table")
         elif kind == "dump":
-            if st != pre:
+            if st != pre and not oo:
                 raise Failure("get_pure", "dump changed the table")
         else:
             raise Failure("protocol", "unknown op " + kind)
+        if oo:
+            self.state = st
+            return
         # the live content of the image IS the reference map: nothing else was disturbed
         self._wrapped = False
         cont = self.content(st, live)
@@ -346,7 +414,24 @@ def split_blocks(ops):
     return blocks
 
 
-def monitor_script(ops, impl_lines):
+def script_keys(ops):
+    """(type, order, key) of every key mentioned in a script"""
+    out, ty, order = set(), None, 0
+    for ln in ops:
+        w = ln.split()
+        if not w:
+            continue
+        if w[0] == "new" and len(w) >= 3:
+            ty, order = w[1], int(w[2])
+        elif ty in TYPES and w[0] in ("put", "get", "remove", "hash") and len(w) > 1:
+            try:
+                out.add((ty, order, norm_key(ty, w[1])))
+            except ValueError:
+                pass
+    return out
+
+
+def monitor_script(ops, impl_lines, hasher, outputs_only=False):
     """Evaluate the property on the implementation's output of a whole script.
     Returns (failure or None, stats, number of evaluations)."""
     stats, evals = {}, 0
@@ -362,7 +447,7 @@ def monitor_script(ops, impl_lines):
                 if mon:
                     for k, v in mon.stats.items():
                         stats[k] = stats.get(k, 0) + v
-                mon = Monitor(op, impl_lines[n])
+                mon = Monitor(op, impl_lines[n], hasher, outputs_only)
             elif mon is None:
                 continue
             else:
@@ -376,7 +461,7 @@ def monitor_script(ops, impl_lines):
     if mon:
         for k, v in mon.stats.items():
             stats[k] = stats.get(k, 0) + v
-        stats["_ghosts_at_end"] = list(getattr(mon, "ghosts", []))
+        stats["_ghosts_at_end"] = list(mon.ghosts)
     return None, stats, evals
 
 
@@ -392,10 +477,16 @@ def first_diff(a, b):
 def check_script(args):
     """Runs a script on implementation and model, compares, monitors.  Returns a result dict (picklable)."""
     binp, ops, tag = args[:3]
+    if isinstance(ops, tuple) and ops[0] == "rand":
+        # generate in the worker: ("rand", type, order, index, thorough)
+        ops = random_script(ops[1], ops[2], ops[3], ops[4], ImplHash(binp))
     script = "\n".join(ops) + "\n"
     rc, impl, err = run_impl(binp, script)
     model = run_model(script)
-    fail, stats, evals = monitor_script(ops, impl)
+    hasher = ImplHash(binp)
+    if rc == 0:
+        hasher.ensure(script_keys(ops))
+    fail, stats, evals = monitor_script(ops, impl, hasher)
     res = {"tag": tag, "lines": len(impl), "stats": stats, "evals": evals, "diff": None, "monitor": fail, "crash": None}
     if len(args) > 3 and args[3]:
         res["impl"] = impl
@@ -404,7 +495,7 @@ def check_script(args):
     d = first_diff(impl, model)
     if d is not None:
         res["diff"] = {"step": d, "impl": impl[d] if d < len(impl) else None, "model": model[d] if d < len(model) else None}
-    if res["diff"] or res["monitor"] or res["crash"]:
+    if res["diff"] or res["monitor"] or res["crash"] or (len(args) > 4 and args[4]):
         res["ops"] = ops
     return res
 
@@ -478,26 +569,31 @@ def ghost_extension(binp, ops, impl_lines):
         return None
     last = blocks[-1]
     offset = len([1 for b in blocks[:-1] for _ in b])
+    hasher = ImplHash(binp)
+    hasher.ensure(script_keys(last))
     try:
-        mon = Monitor(last[0], impl_lines[offset])
+        mon = Monitor(last[0], impl_lines[offset], hasher)
         for j, op in enumerate(last[1:], 1):
             mon.step(op, impl_lines[offset + j])
-    except Failure:
+    except (Failure, IndexError, ValueError, KeyError):
         return None
-    if not getattr(mon, "ghosts", None):
+    if not mon.ghosts:
         return None
     g = mon.ghosts[0]
-    live = mon.live_map(mon.state)
     rng = C.rng("c17-ghost", g, mon.ty, mon.order)
     used = set(mon.ref) | {v[1] for v in mon.state.values() if v[1]}
     ext = []
     free = [(g + d) % mon.N for d in range(1, mon.A) if mon.state.get((g + d) % mon.N, (0, None, 0))[1] is None]
-    want = keys_for_buckets(mon.ty, mon.order, sorted(set(free + [g])), 3, rng, highbytes=False)
+    want = keys_for_buckets(mon.ty, mon.order, sorted(set(free + [g])), 3, rng, highbytes=False, hasher=hasher)
     for p in free:
-        k = next(x for x in want[p] if x not in used)
+        k = next((x for x in want[p] if x not in used), None)
+        if k is None:
+            return None
         used.add(k)
         ext.append("put %s 7" % k)
-    k = next(x for x in want[g] if x not in used)
+    k = next((x for x in want[g] if x not in used), None)
+    if k is None:
+        return None
     ext.append("put %s 9" % k)
     ext.append("get %s" % k)
     return [op for b in blocks[:-1] for op in b] + last + ext
@@ -525,8 +621,18 @@ def decide(binp, ctx, out, res, family, totals):
         return
     if sres.get("monitor"):
         replay["failing_clause"] = sres["monitor"]
+        if sres["monitor"]["clause"] in ("image", "unique", "content"):
+            # the slot image is not a consistent encoding of the reference map: look for the failure at the level of
+            # the operations' results too (probe every key of the script), and report that history if there is one
+            probe = output_level_probe(binp, small)
+            if probe:
+                replay["image_failure"] = sres["monitor"]
+                replay["script"], replay["impl_trace"], replay["failing_clause"] = probe
+                replay["model_trace"] = run_model("\n".join(probe[0]) + "\n")
+                replay["found_by"] = "results of probing operations appended to the history whose slot image is inconsistent"
         out.violation("property C17 fails on the implementation: %s — %s" % (
-            sres["monitor"]["clause"], sres["monitor"]["detail"]), replay)
+            replay["failing_clause"]["clause"] if isinstance(replay["failing_clause"], dict) else "crash",
+            replay["failing_clause"]["detail"] if isinstance(replay["failing_clause"], dict) else "sanitizer report"), replay)
         return
     # model and code differ, the monitor is satisfied on this script: search the neighbourhood
     tried = 0
@@ -538,8 +644,10 @@ def decide(binp, ctx, out, res, family, totals):
         for i in range(40 if ctx.thorough else 12):
             rng = C.rng("c17-neigh", i, family)
             keys = sorted({w.split()[1] for w in blocks[-1][1:] if len(w.split()) > 1})
-            home = {pyhash(mon_ty, mon_order, k) for k in keys} or {0}
-            more = keys_for_buckets(mon_ty, mon_order, sorted(home), 4, rng, highbytes=False)
+            nh = ImplHash(binp)
+            home = {nh.bucket(mon_ty, mon_order, k) for k in keys if not k.startswith("-") or k == "-"} or {0}
+            home.discard(-1)
+            more = keys_for_buckets(mon_ty, mon_order, sorted(home) or [0], 4, rng, highbytes=False, hasher=nh)
             pool = keys + [k for v in more.values() for k in v]
             cands.append(small + random_ops(rng, pool, 60, put_bias=0.6))
     for cand in cands:
@@ -562,6 +670,30 @@ def decide(binp, ctx, out, res, family, totals):
     out.violation("model and implementation differ; no input violating the property found", replay, no_input=True)
 
 
+def output_level_probe(binp, ops):
+    """append get / put / get / remove / get of every key of the last block and evaluate only the clauses that
+    speak about operation results (no use of the slot image); returns (script, impl trace, failing clause) or None"""
+    blocks = split_blocks(ops)
+    if not blocks:
+        return None
+    last = blocks[-1]
+    keys = sorted({w.split()[1] for w in last[1:] if len(w.split()) > 1 and w.split()[0] in ("put", "get", "remove")})
+    ext = list(last)
+    for k in keys:
+        ext += ["get " + k]
+    for k in keys:
+        ext += ["put %s 4242" % k, "get " + k, "remove " + k, "get " + k]
+    rc, impl, err = run_impl(binp, "\n".join(ext) + "\n")
+    hasher = ImplHash(binp)
+    fail, _, _ = monitor_script(ext, impl, hasher, outputs_only=True)
+    if rc != 0 or "ERROR: AddressSanitizer" in err or "runtime error" in err:
+        fail = fail or {"clause": "crash", "detail": err[-1500:], "step": len(impl), "op": ext[len(impl)] if len(impl) < len(ext) else ""}
+    if not fail:
+        return None
+    cut = ext[:fail["step"] + 1]
+    return cut, impl[:fail["step"] + 1], fail
+
+
 # --------------------------------------------------------------------------- generators
 
 def random_ops(rng, pool, n, put_bias=0.55, sweep_p=0.004):
@@ -582,7 +714,7 @@ def random_ops(rng, pool, n, put_bias=0.55, sweep_p=0.004):
     return ops
 
 
-def random_script(ty, order, idx, thorough):
+def random_script(ty, order, idx, thorough, hasher=None):
     """one seeded random history for (type, order): a cluster of colliding keys placed so that probing wraps
     around the table end; fill / drain phases; at orders >= 7 dense enough for displacement and stuck refusals."""
     rng = C.rng("c17-rand", ty, order, idx)
@@ -594,11 +726,11 @@ def random_script(ty, order, idx, thorough):
         per = rng.choice([2, 3, A + 1])
     else:
         per = rng.choice([1, 2, 3])
-    want = keys_for_buckets(ty, order, buckets, per, rng)
+    want = keys_for_buckets(ty, order, buckets, per, rng, hasher=hasher)
     pool = [k for v in want.values() for k in v]
     if order >= 6:
         # one overfull bucket: more keys than hop bits
-        hot = keys_for_buckets(ty, order, [base], 36, rng, highbytes=False)[base]
+        hot = keys_for_buckets(ty, order, [base], 36, rng, highbytes=False, hasher=hasher)[base]
         pool += hot
     if ty != "string" and rng.random() < 0.3:
         pool.append(str(M32 if ty == "uint32" else M64))
@@ -615,14 +747,14 @@ def random_script(ty, order, idx, thorough):
     return ops
 
 
-def exhaustive_alphabet(ty, order):
+def exhaustive_alphabet(ty, order, hasher=None):
     """a small colliding universe: three keys of one bucket at the table end (probing wraps), one or two of
     the next bucket; values 1/2 so that 'most recently stored' is observable."""
     rng = C.rng("c17-exh-keys", ty, order)
     N = 1 << order
     b0 = N - 1
     per0 = 3
-    want = keys_for_buckets(ty, order, [b0, 0], per0, rng, highbytes=(ty == "string"))
+    want = keys_for_buckets(ty, order, [b0, 0], per0, rng, highbytes=(ty == "string"), hasher=hasher)
     keys = want[b0][:3] + want[0][:2]
     if order == 2:
         keys = want[b0][:3] + want[0][:1]
@@ -637,7 +769,7 @@ def exhaustive(binp, ty, order, depth, pool):
     """Breadth-first over all operation sequences of length <= depth over the alphabet, modulo equality of the
     complete slot image.  Every (state, op) transition is executed on implementation and model (as
     representative-sequence + op) and compared; the monitor runs on the implementation's output."""
-    keys, sigma = exhaustive_alphabet(ty, order)
+    keys, sigma = exhaustive_alphabet(ty, order, ImplHash(binp))
     new = "new %s %d" % (ty, order)
     frontier = {"": []}       # state image -> representative op sequence
     seen = {""}
@@ -781,19 +913,19 @@ def run(ctx, out):
         depth = 7 if ctx.thorough else 5
         exh = {}
         if not bad:
-            for order in (2, 3, 4):
-                for ty in TYPES:
-                    r = exhaustive(binp, ty, order, depth, pool)
+            combos = [(ty, order) for order in (2, 3, 4) for ty in TYPES]
+            with cf.ThreadPoolExecutor(max_workers=len(combos)) as tp:
+                futs = {c: tp.submit(exhaustive, binp, c[0], c[1], depth, pool) for c in combos}
+                for (ty, order), f in futs.items():
+                    r = f.result()
                     if r["bad"]:
                         bad.append(("exhaustive", r["bad"]))
-                        break
+                        continue
                     exh["%s/%d" % (ty, order)] = {k: r[k] for k in ("transitions", "states", "levels", "closed", "alphabet", "keys",
                                                                     "sequences_covered")}
                     cov["traces_validated_against_impl"] += r["transitions"]
                     cov["evaluations"] += r["evals"]
                     merge_stats(totals, r["stats"])
-                if bad:
-                    break
         cov["exhaustive_detail"] = exh
         cov["exhaustive"] = bool(exh) and not bad
         cov["exhaustive_rule"] = "orders 2-4: every operation sequence of length <= %d over the listed alphabet (put k 1, put k 2, get k, " \
@@ -809,11 +941,12 @@ def run(ctx, out):
         for order in range(2, 14):
             for ty in TYPES:
                 for i in range(per):
-                    rj.append((binp, random_script(ty, order, i, ctx.thorough), "rand-%s-%d-%d" % (ty, order, i)))
-        for (b, ops, tag), res in zip(rj, pool.map(check_script, rj)):
+                    rj.append((binp, ("rand", ty, order, i, ctx.thorough), "rand-%s-%d-%d" % (ty, order, i), False,
+                               len(rj) == 7))
+        for job, res in zip(rj, pool.map(check_script, rj)):
             account(res, "random")
-        if rj:
-            cov["samples"].append({"family": "random", "tag": rj[7][2], "script": rj[7][1][:25]})
+            if job[4] and not (res["diff"] or res["monitor"] or res["crash"]):
+                cov["samples"].append({"family": "random", "tag": job[2], "script": res.get("ops", [])[:25]})
 
     # decisions (smallest failing scripts first: their replays are the most readable)
     reported = set()
